@@ -17,36 +17,42 @@ def _ops(cfg: HubConfig, info) -> List[Tuple[str, List[List]]]:
     out = []
     for s in cfg.subscribers:
         if s not in present:
-            out.append((f"connect2({s})", a.connect_v2(s, name=s.encode()))) if s != "B" else out.append(
-                (f"connect1({s})", a.connect_v1(s)))
+            if s in cfg.churn:
+                out.append((f"connect2({s})", a.connect_v2(s, name=s.encode()))) if s != "B" else out.append(
+                    (f"connect1({s})", a.connect_v1(s)))
         elif s in live:
-            for t in (T1, T2, ALL):
-                out.append((f"sub({s},{t})", a.ctl(s, P.MT_SUBSCRIBE, t)))
-            for t in (T1, ALL):
-                out.append((f"unsub({s},{t})", a.ctl(s, P.MT_UNSUBSCRIBE, t)))
-            out.append((f"pause({s},T1)", a.ctl(s, P.MT_PAUSE_SUBSCRIPTION, T1)))
-            out.append((f"resume({s},T1)", a.ctl(s, P.MT_RESUME_SUBSCRIPTION, T1)))
-            if cfg.tier == "thorough":
-                out.append((f"pause({s},ALL)", a.ctl(s, P.MT_PAUSE_SUBSCRIPTION, ALL)))
-                out.append((f"resume({s},ALL)", a.ctl(s, P.MT_RESUME_SUBSCRIPTION, ALL)))
-                out.append((f"unsub({s},T2)", a.ctl(s, P.MT_UNSUBSCRIBE, T2)))
+            if s in cfg.ctl:
+                for t in cfg.types:
+                    out.append((f"sub({s},{t})", a.ctl(s, P.MT_SUBSCRIBE, t)))
+                for t in (T1, ALL):
+                    out.append((f"unsub({s},{t})", a.ctl(s, P.MT_UNSUBSCRIBE, t)))
+                out.append((f"pause({s},T1)", a.ctl(s, P.MT_PAUSE_SUBSCRIPTION, T1)))
+                out.append((f"resume({s},T1)", a.ctl(s, P.MT_RESUME_SUBSCRIPTION, T1)))
+                if cfg.tier == "thorough":
+                    out.append((f"pause({s},ALL)", a.ctl(s, P.MT_PAUSE_SUBSCRIPTION, ALL)))
+                    out.append((f"resume({s},ALL)", a.ctl(s, P.MT_RESUME_SUBSCRIPTION, ALL)))
+                    out.append((f"unsub({s},T2)", a.ctl(s, P.MT_UNSUBSCRIBE, T2)))
             out.append((f"pub({s},T1)", a.data(s, T1, b"\x01\x02\x03\x04")))
-            out.append((f"disconnect({s})", a.disconnect(s)))
-            out.append((f"close({s})", a.close(s)))
+            if s in cfg.churn:
+                out.append((f"disconnect({s})", a.disconnect(s)))
+                out.append((f"close({s})", a.close(s)))
     for s in cfg.loggers:
         if s not in present:
-            out.append((f"connect2({s})", a.connect_v2(s, name=s.encode())))
+            if s in cfg.churn:
+                out.append((f"connect2({s})", a.connect_v2(s, name=s.encode())))
         elif s in live:
-            out.append((f"sub({s},ALL)", a.ctl(s, P.MT_SUBSCRIBE, ALL)))
-            out.append((f"sub({s},T1)", a.ctl(s, P.MT_SUBSCRIBE, T1)))
-            out.append((f"unsub({s},ALL)", a.ctl(s, P.MT_UNSUBSCRIBE, ALL)))
+            if s in cfg.ctl:
+                out.append((f"sub({s},ALL)", a.ctl(s, P.MT_SUBSCRIBE, ALL)))
+                out.append((f"sub({s},T1)", a.ctl(s, P.MT_SUBSCRIBE, T1)))
+                out.append((f"unsub({s},ALL)", a.ctl(s, P.MT_UNSUBSCRIBE, ALL)))
             out.append((f"pub({s},T1)", a.data(s, T1, b"gggg")))
-            out.append((f"disconnect({s})", a.disconnect(s)))
+            if s in cfg.churn:
+                out.append((f"disconnect({s})", a.disconnect(s)))
     return out
 
 
 def build(tier="quick", tc=False, flip=False, subscribers="AB", loggers="G", pairs="publish", nonwritable=1,
-          props=("C01",), sizes=(0, 4)) -> HubConfig:
+          props=("C01",), sizes=(0, 4), churn="", ctl="", pre="", types=(T1, T2, ALL)) -> HubConfig:
     slots = list(subscribers) + list(loggers) + ["M"]
     hid_vals = list(range(1, len(slots) + 1))
     if flip:
@@ -58,11 +64,14 @@ def build(tier="quick", tc=False, flip=False, subscribers="AB", loggers="G", pai
     for t in (P.MT_CLIENT_INFO, P.MT_CLIENT_CLOSED, P.MT_FAILED_MESSAGE):
         init += a.ctl("M", P.MT_SUBSCRIBE, t)
     init += [["settle"]]
-    cfg = HubConfig(name=f"routing-{tier}-tc{int(tc)}-flip{int(flip)}-{subscribers}-{loggers}-{pairs}-{nonwritable}",
+    for s in pre:
+        init += (a.connect_v1(s) if s == "B" else a.connect_v2(s, name=s.encode())) + [["settle"]]
+    cfg = HubConfig(name=f"routing-{tier}-tc{int(tc)}-flip{int(flip)}-{subscribers}-{loggers}-{pairs}-{nonwritable}-{churn}-{ctl}-{pre}-{len(types)}-{max(sizes)}",
                     tc=tc, ids=ids, hids=hids, init=init, ops=_ops, probes=True, sizes=tuple(sizes), pairs=pairs,
                     nonwritable=nonwritable, props=tuple(props))
     cfg.subscribers = list(subscribers)
     cfg.loggers = list(loggers)
+    cfg.churn, cfg.ctl, cfg.types = set(churn), set(ctl), tuple(types)
     cfg.tier = tier
     return cfg
 
@@ -70,23 +79,35 @@ def build(tier="quick", tc=False, flip=False, subscribers="AB", loggers="G", pai
 def builder(**kw):
     kw["sizes"] = tuple(kw.get("sizes", (0, 4)))
     kw["props"] = tuple(kw.get("props", ("C01",)))
+    if "types" in kw:
+        kw["types"] = tuple(kw["types"])
     return ("vf.checks.c01", "build", tuple(sorted(kw.items())))
 
 
 def configs(tier: str, props) -> List[Any]:
     if tier == "quick":
-        return [builder(tier=tier, tc=False, flip=False, subscribers="AB", loggers="G", pairs="publish", nonwritable=1,
-                        props=props),
-                builder(tier=tier, tc=True, flip=True, subscribers="AB", loggers="", pairs="none", nonwritable=2,
-                        props=props)]
-    return [builder(tier=tier, tc=False, flip=False, subscribers="AB", loggers="G", pairs="all", nonwritable=3,
-                    props=props, sizes=(0, 4, 65535)),
-            builder(tier=tier, tc=True, flip=True, subscribers="AB", loggers="G", pairs="all", nonwritable=3,
-                    props=props, sizes=(0, 4, 65535)),
-            builder(tier=tier, tc=False, flip=True, subscribers="ABC", loggers="", pairs="publish", nonwritable=2,
+        return [
+            # fixed population, every joint subscription state, probes + non-writable subsets + pairs
+            builder(tier=tier, subscribers="AB", loggers="G", pre="ABG", ctl="ABG", pairs="publish", nonwritable=2,
                     props=props),
-            builder(tier=tier, tc=False, flip=False, subscribers="AB", loggers="GH", pairs="publish", nonwritable=2,
-                    props=props)]
+            # connects / disconnects / closes interleaved with subscriptions; timecode header, reversed hash order
+            builder(tier=tier, tc=True, flip=True, subscribers="AB", loggers="", churn="AB", ctl="AB", pairs="none",
+                    nonwritable=1, props=props, types=(T1, ALL), sizes=(0, 4, 65535)),
+        ]
+    return [
+        builder(tier=tier, subscribers="AB", loggers="G", pre="ABG", ctl="ABG", pairs="all", nonwritable=3, props=props,
+                sizes=(0, 4, 65535)),
+        builder(tier=tier, tc=True, flip=True, subscribers="AB", loggers="G", pre="GBA", ctl="ABG", pairs="all",
+                nonwritable=3, props=props, sizes=(0, 4, 65535)),
+        builder(tier=tier, subscribers="ABC", loggers="", pre="ABC", ctl="ABC", pairs="publish", nonwritable=2, props=props,
+                types=(T1, ALL)),
+        builder(tier=tier, subscribers="AB", loggers="GH", pre="ABGH", ctl="ABGH", pairs="publish", nonwritable=2,
+                props=props, types=(T1, ALL)),
+        builder(tier=tier, subscribers="AB", loggers="G", churn="ABG", ctl="ABG", pairs="publish", nonwritable=1,
+                props=props, types=(T1, ALL)),
+        builder(tier=tier, tc=True, flip=True, subscribers="AB", loggers="G", churn="ABG", ctl="ABG", pairs="none",
+                nonwritable=1, props=props, types=(T1, ALL)),
+    ]
 
 
 def run(tier: str) -> int:
